@@ -22,6 +22,13 @@ func main() {
 		world.CleanScratch()
 		os.Exit(code)
 	}()
+	if os.Args[1] == "C14-digest" {
+		for k, v := range checks.C14Digest() {
+			fmt.Printf("%s=%s\n", k, v)
+		}
+		code = 0
+		return
+	}
 	if os.Args[1] == "replay" {
 		code = checks.ReplayFile(os.Args[2])
 		return
